@@ -474,8 +474,16 @@ def c04_cases(ctx, quick):
             fpt = rng.choice([3, 1, 2])
             zoom, P = rng.choice([(1.5, 16.0), (0.6, 12.0), (1.3, 16.0)]) if fpt != 2 else (1.2, 20.0)
             chk = ["series", "alike", "records", "moving"] + (["strobe-converge"] if fpt == 3 else ["strobe-shrink"] if fpt == 1 and zoom > 1 else [])
-            cases.append(mk(rng.choice([48, 64]), rng.choice([24, 32, 40, 50]), rng.choice([3, 4]), zoom, P, fpt, 3, rng.choice([2, 3]),
-                            rng.choice([two, [1e-3, 0.0, 2e-3], [1e-3]]), rng.choice([0.01, 0.02, 0.03]), chk))
+            n_, N_, it_, T_ = rng.choice([48, 64]), rng.choice([24, 32, 40, 50]), rng.choice([3, 4]), rng.choice([2, 3])
+            cur_, e1_ = rng.choice([two, [1e-3, 0.0, 2e-3], [1e-3]]), rng.choice([0.01, 0.02, 0.03])
+            if fpt == 1:
+                # damping only: the bunch shrinks by about exp(-e1 k / 2) in k steps; a start of 0.6 sigma, or 1.5 sigma over three periods
+                # at e1 = 0.03, ends below one mesh cell (NaN records; the recurrence presupposes a resolved bunch): start wide, stop after
+                # e1 * steps <= 1.3 (found in the thorough tier, default seed, by family stfp)
+                zoom, P = 1.5, 16.0
+                T_ = min(T_, max(1, int(1.3 / (e1_ * N_) * 2) / 2.0))
+                chk = ["series", "alike", "records", "moving"] + (["strobe-shrink"] if T_ >= 2 else [])
+            cases.append(mk(n_, N_, it_, zoom, P, fpt, 3, T_, cur_, e1_, chk))
     return cases
 
 
